@@ -183,6 +183,25 @@ CHECKS["C13"] = {
 }
 
 
+CHECKS["C15"] = {
+    "level": "exploration",
+    "technique": "bounded-exhaustive enumeration of strings x ALL partitions into chunks x the decoder configuration lattice through the real streaming parser, against a reference splitter/decoder",
+    "level_text": "Three exhaustive layers through the public htp_urlenp_parse_partial()/finalize(): (i) every string of length <= 6 (quick) / 7 (thorough) over {a = & % + 1 NUL} under EVERY "
+                  "partition into chunks (all multi-cuts) and all 36 points of the URLENCODED decoder lattice (invalid handling x plus-decode x %u-decode x NUL termination); (ii) every "
+                  "string of length <= 7 / 8 over the alphabet extended with 'u', whole delivery, all 36 cfgs; (iii) every string <= 7 / 8 under every partition with decoding off (the "
+                  "splitter alone). Plus a binding slice: every query string <= 5 over {a = & % + 1} through a real request into tx->request_params. The reported pairs must equal the "
+                  "reference rule of the statement, in order.",
+    "level_note": "Trusted: mc/ref.c (split on '&', first '=', drop only a final empty piece; percent/%u/plus decoding written from htp_config.h, PROCESS_INVALID uses the classic two-digit "
+                  "conversion) and the library's best-fit table as data. Exhaustive for alphabet and length only.",
+    "design_ref": "DESIGN.md §6 C15",
+    "rule": "odometer enumeration x all 2^(n-1) partitions x cfg lattice; distinct = distinct reported pair lists",
+    "bounds": {"quick": "lengths 6 / 7 / 7; ASan pass at 4 / 5 / 5", "thorough": "lengths 7 / 8 / 8; ASan pass at 5 / 6 / 6"},
+    "assumptions": ["alphabet of mc/enum_c15.c"],
+    "jobs": lambda tier: [J("enum_c15", "plain"),
+                          J("enum_c15", "asan", ["--len-partitions", "4", "--len-whole", "5", "--len-split", "5"] if tier == "quick" else ["--len-partitions", "5", "--len-whole", "6", "--len-split", "6"])],
+}
+
+
 def manifest():
     import json, os
     root = os.path.dirname(os.path.dirname(os.path.abspath(__file__)))
@@ -215,6 +234,7 @@ def manifest():
 ENGINES = [
     {"name": "statemc", "path": "mc/statemc.c", "serves_properties": ["C01", "C05", "C09", "C10"], "kind_free_text": "E2: explicit-state BFS over token histories of the real parser, exact canonical state hashing"},
     {"name": "enum_c13", "path": "mc/enum_c13.c", "serves_properties": ["C13"], "kind_free_text": "E3: exhaustive string enumeration through htp_parse_uri with a partition checker"},
+    {"name": "enum_c15", "path": "mc/enum_c15.c", "serves_properties": ["C15"], "kind_free_text": "E3: exhaustive strings x all partitions x decoder lattice through the urlencoded parser vs mc/ref.c"},
     {"name": "cutmc", "path": "mc/cutmc.c", "serves_properties": ["C02", "C03", "C04", "C06", "C16"], "kind_free_text": "E1: stateless deviation-bounded explorer of segmentation / generated grammar on the real code"},
 ]
 
